@@ -61,6 +61,8 @@ def gen_pair(rng, big=False, with_schema=False, c06_class=False, doubled=False, 
             ty = rng.choice(list(TYPES))
             nullable = rng.random() < 0.6
             col = {"name": c, "ty": ty, "nullable": nullable, "pk": False}
+            if table_opts and rng.random() < 0.2:
+                col["key"] = "k_" + c            # (C09) Column.key != Column.name, as in declarative models
             if table_opts:
                 # (C09) server defaults and an explicit autoincrement flag, so that alter_column ops carry them
                 if rng.random() < 0.35:
@@ -276,6 +278,7 @@ def build_metadata(tables, split=False):
 def _build_table(md, t):
     if True:
         args = []
+        key = {c["name"]: c.get("key") or c["name"] for c in t["cols"]}      # string references go by Column.key
         for c in t["cols"]:
             ckw = {}
             if c.get("default") is not None:
@@ -284,22 +287,24 @@ def _build_table(md, t):
                 ckw["autoincrement"] = c["autoinc"]
             if c.get("comment") is not None:
                 ckw["comment"] = c["comment"]
+            if c.get("key") is not None:
+                ckw["key"] = c["key"]
             args.append(sa.Column(c["name"], TYPES[c["ty"]](), nullable=c["nullable"],
                                   primary_key=c.get("pk", False) and not t.get("pk_order"), **ckw))
         if t.get("pk_order"):
-            args.append(sa.PrimaryKeyConstraint(*t["pk_order"], name=t.get("pk_name")))
+            args.append(sa.PrimaryKeyConstraint(*[key[c] for c in t["pk_order"]], name=t.get("pk_name")))
         for u in t["uqs"]:
-            args.append(sa.UniqueConstraint(*u["cols"], name=u["name"]))
+            args.append(sa.UniqueConstraint(*[key[c] for c in u["cols"]], name=u["name"]))
         for f in t["fks"]:
             ref = "%s.%s.id" % (t["schema"], f["ref"]) if t["schema"] else "%s.id" % f["ref"]
-            args.append(sa.ForeignKeyConstraint([f["col"]], [ref], name=f["name"], ondelete=f["ondelete"], onupdate=f.get("onupdate"),
+            args.append(sa.ForeignKeyConstraint([key[f["col"]]], [ref], name=f["name"], ondelete=f["ondelete"], onupdate=f.get("onupdate"),
                                                 deferrable=f.get("deferrable"), initially=f.get("initially")))
         tkw = {"sqlite_with_rowid": False} if t.get("without_rowid") else {}
         if t.get("comment") is not None:
             tkw["comment"] = t["comment"]
         tb = sa.Table(t["name"], md, *args, schema=t["schema"], **tkw)
         for i in t["idxs"]:
-            sa.Index(i["name"], *[tb.c[c] for c in i["cols"]], unique=i["unique"])
+            sa.Index(i["name"], *[tb.c[key[c]] for c in i["cols"]], unique=i["unique"])
 
 
 def fk_sig(col, ref, ondelete):
